@@ -339,8 +339,12 @@ def gen_table(rng):
     npar = rng.choice([4, 4, 4, 5])
     for i in range(N):
         c = rng.random()
-        if c < 0.25 and prev_nll:
+        if c < 0.2 and prev_nll:
             nll = rng.choice(prev_nll)            # exact repeat of an earlier likelihood
+        elif c < 0.32 and prev_nll:
+            # near repeat: differs in the 7th/8th significant digit (distinct after '%.7e' formatting)
+            b = rng.choice(prev_nll)
+            nll = float('%.7e' % (b * (1 + rng.choice([1, 2, 5, -1, -3]) * 10.0 ** rng.choice([-7, -6])))) if b else 1e-7
         elif c < 0.6:
             nll = rng.choice(pal)
         else:
